@@ -25,6 +25,7 @@ LEVEL_TEXT = (
     "machinery except the tabled LikelihoodLoss.compute_loss; (R6) filters are applied to the simulated argument only, "
     "filter i to coordinate i of every member. Ensemble-permutation invariance, non-negativity and zero-at-equality "
     "are numerical clauses that are not decided."
+    ' Included: values returned by user-supplied callables are never modified in place (R1b), and the MSM shape rule of C07 (the inverse-variance weight is the reciprocal of a mean of squares of the same centred moments).'
 )
 TECHNIQUE = "alias/mutation analysis + effect (self-store) analysis + normal forms + order-class abstract evaluation"
 
